@@ -23,11 +23,19 @@ def check(ctx):
     for kind in ('multi', 'multib'):
         rows = R.run_kind(ctx, kind)
         R.compare(ctx, rows, lambda d: (flag(d), d.get('rel'), d.get('subs')), f'C14 release of every source of a multi-source operator ({kind})', nontrivial=lambda c, gd: True, max_report=2)
+    # the hot constructs: when the last subscriber of a shared observable leaves (or the connection is closed) the
+    # source is released — live/total upstream subscriptions after every event of the C11 sequences, incl. the
+    # generations after a source terminal (the transition system and its theorems are C11's; C14 reads the release)
+    for kind in ('share', 'conn'):
+        rows = R.run_kind(ctx, kind)
+        R.compare(ctx, rows, lambda d: (flag(d), d.get('up')), f'C14 release of the shared source after every event ({kind})',
+                  nontrivial=lambda c, gd: 'U' in c.split('ev=')[-1] or 'D' in c.split('ev=')[-1], max_report=2)
     rows = R.run_kind(ctx, 'cancel')
     R.compare(ctx, rows, proj_all, 'C14 never-ending asynchronous source below each operator', nontrivial=lambda c, gd: True, recheck=2)
     for r in catalogue():
         if (r['Waits'] > 0 or r['RecvOutsideGo']) and r['Name'] in KNOWN_WAITING:
             ctx.known.append(f"op={r['Name']} shape=blocks-in-subscribe: the subscribe function waits for its source ({r['File']}:{r['Line']}); Subscribe does not return when downstream ends early over a never-ending source")
     return dict(rule='every catalogue operator (hot source, external Unsubscribe at a random position, early terminators) and random chains of 2-5 operators; '
-                     'never-ending goroutine-driven source below each operator with Take/First/Unsubscribe/context-cancel above it; compared: probe teardown count, subscription count, closed flag',
+                     'never-ending goroutine-driven source below each operator with Take/First/Unsubscribe/context-cancel above it; compared: probe teardown count, subscription count, closed flag; '
+                     'Share / connectable event sequences of C11: live/total upstream subscriptions after every event',
                 search=table_search('C14'))
